@@ -6,7 +6,8 @@ RB = '_ZNSt8_Rb_treeIiiSt9_IdentityIiESt4lessIiESaIiEE'
 RBSET = ','.join(x + ':4' for x in [RB + '16_M_insert_uniqueIRKiEESt4pairISt17_Rb_tree_iteratorIiEbEOT_.0', '_ZSt18_Rb_tree_decrementPSt18_Rb_tree_node_base.0', '_ZSt18_Rb_tree_decrementPSt18_Rb_tree_node_base.1'])
 NOLOG = ['_ZN4util3log23LogPrintFormatInternal_[A-Za-z0-9_]*', '_ZN4util6detail24CheckNumFormatSpecifiersILj[0-9]+EEEvPKc']
 def e(nf, ncs, which, mode): return ('f%d_c%d_w%d_%s' % (nf, ncs, which, 'auto' if mode == 0 else 'man'), '%d, %d, %d, %d' % (nf, ncs, which, mode))
-ENT = [e(3, 1, 0, 0), e(3, 2, 1, 0), e(3, 2, 0, 0), e(3, 1, 0, 1), e(3, 2, 1, 1), e(2, 1, 0, 0), e(1, 1, 0, 0)]
+ENT = [e(3, 1, 0, 0), e(3, 2, 1, 0), e(3, 1, 0, 1), e(2, 1, 0, 0), e(1, 1, 0, 0)]
+TENT = ENT + [e(3, 2, 0, 0), e(3, 2, 1, 1), e(2, 2, 0, 0), e(2, 2, 1, 1)]
 ENT_SET = [e(2, 1, 0, 0), e(2, 1, 0, 1)]
 FN = ['node::BlockManager::FindFilesToPrune', 'node::BlockManager::FindFilesToPruneManual', 'node::BlockManager::CalculateCurrentUsage', 'node::BlockManager::MaxBlockfileNum/IsPruneMode/GetPruneTarget',
       'Chainstate::GetPruneRange', 'Chainstate::SnapshotBase', 'Chainstate::GetRole', 'ChainstateManager::HistoricalChainstate', 'ChainstateManager::IsInitialBlockDownload', 'ChainstateManager::GetParams', 'CChainParams::PruneAfterHeight', 'CChain::Height']
@@ -27,7 +28,7 @@ HARNESSES = [
       stubs=['phantom Chainstate: m_chain (CChain, vector size set directly), m_from_snapshot_blockhash, m_assumeutxo, m_cached_snapshot_base, m_chainman/m_blockman reference slots',
              'node::BlockManager::LookupBlockIndex -> the harness snapshot-base block', 'assertion_fail -> CBMC assertion', 'tinyformat -> empty strings'],
       bounds='all 31-bit tip heights incl. empty chain, all 32-bit requested heights, all snapshot-base heights; loop-free'),
-    H('prunefiles', 'prunefiles.cpp', 'h_prunefiles', link=['node/blockstorage.cpp', 'validation.cpp'], entries=ENT, shadow=['nofmt'], noop=NOLOG, unwind=6, defines={'SETSTUB': 1}, memunwind=168, timeout=300, objbits=10,
+    H('prunefiles', 'prunefiles.cpp', 'h_prunefiles', link=['node/blockstorage.cpp', 'validation.cpp'], entries=ENT, tentries=TENT, shadow=['nofmt'], noop=NOLOG, unwind=6, defines={'SETSTUB': 1}, memunwind=168, timeout=300, objbits=10,
       functions=FN, stubs=ST + ['std::set<int>::insert (_Rb_tree<int>::_M_insert_unique) -> recorder of inserted file numbers (conditional inserts into a node container merge heap shapes; the real set is used by harness prunefiles_set)'],
       assumptions=AS, bounds='block-file tables of 1..3 files (the highest one is the file being written), 1..2 chainstates; all sizes/height ranges (32-bit), tip/best-header/requested/snapshot heights (31-bit), prune target, PruneAfterHeight (64-bit), IBD flag, cursors, assumeutxo/target/snapshot flags symbolic; shapes: ' + ', '.join(x[0] for x in ENT)),
     H('prunefiles_set', 'prunefiles.cpp', 'h_prunefiles_set', link=['node/blockstorage.cpp', 'validation.cpp'], entries=ENT_SET, shadow=['nofmt'], noop=NOLOG, unwind=6, unwindset=RBSET, memunwind=168, timeout=300, objbits=10,
